@@ -1,6 +1,97 @@
 import WhVerif.Util.Proto
+import WhVerif.Model.C03
+import WhVerif.Spec.C03
 namespace WhVerif.Driver.C03
-open Lean WhVerif.Proto
-/-- ops of property C03 are named `c03.<name>`; return `none` for ops that are not ours -/
-def handle (_op : String) (_j : Json) : Option Json := none
+open Lean WhVerif.Proto WhVerif.C03
+
+def parseRead (j : Json) : Option Read := do
+  match ← asArr? j with
+  | [s, ps] => some ⟨← asNat? s, ← natList? ps⟩
+  | _ => none
+
+def parseReads (j : Json) (k : String) : Option (List Read) := do (← getList? j k).mapM parseRead
+
+def optField (j : Json) (k : String) : Option Json :=
+  match j.getObjVal? k with
+  | .ok Json.null => none
+  | .ok v => some v
+  | _ => none
+
+def parseHet (j : Json) : Option HetMap := do
+  (← asArr? j).mapM (fun e => do
+    match ← asArr? e with
+    | [s, ps] => some (← asNat? s, ← natList? ps)
+    | _ => none)
+
+def parseSuper (j : Json) : Option SuperReads := do
+  match ← asArr? j with
+  | [s, vs] =>
+    let vars ← (← asArr? vs).mapM (fun v => do
+      match ← natList? v with
+      | [p, a, b] => some (p, a, b)
+      | _ => none)
+    some ⟨← asNat? s, vars⟩
+  | _ => none
+
+def errJson : Err → Json
+  | .assertion => Json.mkObj [("err", Json.str "AssertionError")]
+  | .keyError => Json.mkObj [("err", Json.str "KeyError")]
+
+def insertPair (e : Nat × Nat) : List (Nat × Nat) → List (Nat × Nat)
+  | [] => [e]
+  | b :: t => if e.1 ≤ b.1 then e :: b :: t else b :: insertPair e t
+
+def compsJson (r : Except Err (List (Nat × Nat))) : Json :=
+  match r with
+  | .error e => errJson e
+  | .ok comps =>
+    let sorted := comps.foldr insertPair []
+    Json.mkObj [("ok", ofList (fun (pc : Nat × Nat) => Json.arr #[ofNat pc.1, ofNat pc.2]) sorted),
+                ("ps", ofList (fun (pc : Nat × Nat) => Json.arr #[ofNat pc.1, ofNat (psName pc.2)]) sorted)]
+
+/-- `linkedB` tabulated over the node list (extensionally the same function on nodes; only faster) -/
+def tabulate (link : Nat → Nat → Bool) (nodes : List Nat) : Nat → Nat → Bool :=
+  let arr := nodes.toArray
+  let tab : Array (Array Bool) := arr.map (fun a => arr.map (fun b => link a b))
+  fun a b =>
+    match nodes.idxOf? a, nodes.idxOf? b with
+    | some i, some k => (tab[i]?.bind (·[k]?)).getD false
+    | _, _ => false
+
+def handle (op : String) (j : Json) : Option Json :=
+  if op == "c03.find_components" then
+    match getNatList? j "phased", parseReads j "reads" with
+    | some phased, some reads =>
+      let master := (optField j "master").bind natList?
+      let het := (optField j "het").bind parseHet
+      -- a present but unparsable optional field is bad input
+      if ((optField j "master").isSome && master.isNone) || ((optField j "het").isSome && het.isNone) then some badInput
+      else some (compsJson (findComponents phased reads master het))
+    | _, _ => some badInput
+  else if op == "c03.overall" then
+    match getNatList? j "accessible", parseReads j "reads", getBool? j "distrust", getNat? j "fam_size",
+          getBool? j "genetic", getNatList? j "homozygous", (getList? j "superreads").bind (·.mapM parseSuper) with
+    | some acc, some reads, some distrust, some fam, some genetic, some hom, some srs =>
+      let pr := overallParams acc distrust fam genetic hom srs
+      let out := compsJson (computeOverallComponents acc reads distrust fam genetic hom srs)
+      some (out.setObjVal! "master" (match pr.1 with | none => Json.null | some m => ofNatList m))
+    | _, _, _, _, _, _, _ => some badInput
+  else if op == "c03.spec" then
+    -- the union-find-free oracle: for every phased position the smallest position connected to it,
+    -- and for the listed pairs whether they are connected
+    match getNatList? j "phased", parseReads j "reads" with
+    | some phased, some reads =>
+      let master := (optField j "master").bind natList?
+      let het := (optField j "het").bind parseHet
+      let nodes := allNodes phased reads master
+      let link := tabulate (linkedB phased reads master het) nodes
+      let left := phased.eraseDups.map (fun p => (p, leftmostWith link nodes p))
+      let pairs := ((getList? j "pairs").bind (·.mapM natList?)).getD []
+      let conn := pairs.map (fun pr => match pr with
+        | [a, b] => Json.bool (connectedWith link nodes a b)
+        | _ => Json.null)
+      some (Json.mkObj [("leftmost", ofList (fun (pc : Nat × Nat) => Json.arr #[ofNat pc.1, ofNat pc.2]) (left.foldr insertPair [])),
+                        ("connected", Json.arr conn.toArray)])
+    | _, _ => some badInput
+  else none
 end WhVerif.Driver.C03
